@@ -157,7 +157,57 @@ def _job(args):
     return common.tag_job(out, __name__, "_job", list(args))
 
 
+def hidden_directory_stream(ctx, n):
+    """module_path below a hidden directory (proj/.ci/tool): the dot of the directory's name is one more dot in the module
+    names (proj..ci.tool, an empty component) - the limit still counts levels below module_path, the limited architecture is
+    still the quotient of the unlimited one."""
+    import os
+    import shutil
+    from pytestarch import get_evaluable_architecture
+    for it in range(n):
+        rng = ctx.rng
+        hid = rng.choice([".ci", ".tools", "._x"])
+        a, b, c = rng.sample(scan.POOL, 3)
+        d = common.scratch_dir()
+        try:
+            tool = d / "proj" / hid / "tool"
+            (tool / a / c).mkdir(parents=True)
+            (tool / b).mkdir(parents=True)
+            (tool / a / "a1.py").write_text(f"import tool.{b}.b1\n")
+            (tool / b / "b1.py").write_text(f"from tool.{a}.{c} import deep\n")
+            (tool / a / c / "deep.py").write_text(f"import tool.{b}\n")
+            rp, mpp = str(d / "proj"), str(tool)
+
+            def sc(**kw):
+                arch = get_evaluable_architecture(rp, mpp, **kw)
+                ns, es = rules.observe(arch, [], [])
+                return sorted(ns), sorted(set(es))
+            try:
+                full = sc()
+            except Exception as e:  # noqa: BLE001
+                ctx.violation(dict(module_path=f"proj/{hid}/tool", error=type(e).__name__ + ": " + str(e)[:200]), "scan below a hidden directory failed", {"kind": "scan_error"})
+                continue
+            mp_dotted = "proj." + hid + ".tool"
+            for k in range(0, 4):
+                ctx.evaluations += 1
+                ctx.stat("module_path_below_a_hidden_directory")
+                try:
+                    lim = sc(level_limit=k)
+                except Exception as e:  # noqa: BLE001
+                    ctx.violation(dict(module_path=f"proj/{hid}/tool", level_limit=k, error=type(e).__name__ + ": " + str(e)[:200]), f"scan below a hidden directory with level_limit={k} failed", {"kind": "scan_error"})
+                    continue
+                qn, qe = quotient(full[0], full[1], k + mp_dotted.count("."))
+                if (lim[0], lim[1]) != (qn, qe):
+                    ctx.violation(dict(module_path=f"proj/{hid}/tool", names=[a, b, c], level_limit=k, modules=lim[0], quotient_modules=qn,
+                                       edges_surplus=sorted(set(lim[1]) - set(qe)), edges_missing=sorted(set(qe) - set(lim[1]))),
+                                  f"module_path below the hidden directory {hid}: level_limit={k} is not the quotient of the full architecture", {"kind": "quotient"})
+            ctx.mark_nontrivial(("hidden", hid, a, b, c))
+        finally:
+            shutil.rmtree(d, ignore_errors=True)
+
+
 def run(ctx: Ctx):
+    hidden_directory_stream(ctx, 6 if ctx.quick else 100)
     n = 160 if ctx.quick else 4000
     per = 10
     jobs = [(ctx.rng.randrange(1 << 30), per) for _ in range(n // per)]
